@@ -33,7 +33,7 @@ CPU_LOAD = 10          # CPU seconds one case may spend in loader + verifier (lo
 CPU_RUN = 30           # CPU seconds one case may spend in the VM under FUEL instructions (not a verdict)
 SAN_OPTS = {"ASAN_OPTIONS": "detect_leaks=0:exitcode=97:abort_on_error=0:allocator_may_return_null=1:"
                             "hard_rss_limit_mb=2048:detect_stack_use_after_return=0:handle_abort=1:"
-                            "handle_sigill=1"}
+                            "handle_sigill=1:symbolize=0"}
 HARNESS_FILES = ("probes/vm_probe.c", "src/nanovm/main.c")
 
 _G = {}                 # inherited by the forked workers
@@ -42,6 +42,52 @@ _G = {}                 # inherited by the forked workers
 # ---------------------------------------------------------------------------------------------
 # report -> signature
 # ---------------------------------------------------------------------------------------------
+
+# Reports are produced with symbolize=0 (the in-process symbolizer re-reads the DWARF of the whole binary for every
+# report: 0.4 s per crash) and symbolized here with addr2line, cached per (binary, offset).
+RAW_FRAME_RE = re.compile(r"^(\s*#\d+\s+0x[0-9a-f]+)\s+\((/[^)+]+)\+0x([0-9a-f]+)\)\s*$")
+_SYM = {}
+
+
+def symbolize(text):
+    lines = text.splitlines()
+    want = {}
+    for ln in lines:
+        m = RAW_FRAME_RE.match(ln)
+        if m and m.group(2).startswith(build.CACHE) and (m.group(2), m.group(3)) not in _SYM:
+            want.setdefault(m.group(2), set()).add(m.group(3))
+    for binary, offs in want.items():
+        offs = sorted(offs)
+        for i in range(0, len(offs), 400):
+            chunk = offs[i:i + 400]
+            r = sh(["addr2line", "-a", "-f", "-i", "-e", binary] + ["0x" + o for o in chunk], cpu=60)
+            cur = None
+            pend = None
+            for ol in r.text().splitlines():
+                if ol.startswith("0x") and len(ol) == 18:
+                    cur = (binary, "%x" % int(ol, 16))
+                    _SYM[cur] = []
+                    pend = None
+                elif cur is not None:
+                    if pend is None:
+                        pend = ol.strip()
+                    else:
+                        _SYM[cur].append((pend, ol.split(" (discriminator")[0].strip()))
+                        pend = None
+            for o in chunk:
+                _SYM.setdefault((binary, o), [])
+    out = []
+    for ln in lines:
+        m = RAW_FRAME_RE.match(ln)
+        if m and (m.group(2), m.group(3)) in _SYM and _SYM[(m.group(2), m.group(3))]:
+            for fn, loc in _SYM[(m.group(2), m.group(3))]:
+                if "/src/" in loc and "libsanitizer" not in loc:
+                    loc = "src/" + loc.split("/src/", 1)[1]     # path relative to the build root, as the in-process symbolizer prints it
+                out.append("%s in %s %s" % (m.group(1), fn, loc))
+        else:
+            out.append(ln)
+    return "\n".join(out)
+
 
 FRAME_RE = re.compile(r"^\s*#\d+\s+0x[0-9a-f]+\s+in\s+(\S+)\s+(\S+?)(?::\d+)*\s*$", re.M)
 
@@ -73,8 +119,18 @@ def frames_of(text):
     return out
 
 
+def clip(err, n=12000):
+    """Keep the report from its ERROR line on (the head carries kind and innermost frames)."""
+    i = err.find("ERROR: AddressSanitizer")
+    if i < 0:
+        i = err.find("runtime error:")
+        i = err.rfind("\n", 0, i) + 1 if i >= 0 else max(0, len(err) - n)
+    return err[max(0, i - 200):i + n]
+
+
 def signature(err, sig, phase):
-    """(key, short description) for a probe/CLI death; None when the text shows resource exhaustion only."""
+    """(key, short description) for a probe/CLI death; None when the text shows resource exhaustion only.
+    `err` must already be symbolized (see symbolize())."""
     if "hard rss limit exhausted" in err or "AddressSanitizer: out-of-memory" in err or "failed to allocate" in err and "ERROR" not in err:
         return None
     m = re.search(r"ERROR: AddressSanitizer: ([^\n]*)", err)
@@ -85,6 +141,12 @@ def signature(err, sig, phase):
         if kind.startswith("requested allocation size") or kind.startswith("allocator is out of memory") or kind.startswith("out of memory"):
             return None
         fr = frames_of(err[m.start():])
+        if kind == "stack-overflow" and fr:
+            # unbounded recursion: which frame happens to be innermost when the guard page is hit is arbitrary, so the key
+            # names one function of the recursion cycle: among the functions that make up at least a quarter of the
+            # trace's in-repo frames, the lexicographically greatest (deterministic for a given cycle)
+            cnt = collections.Counter(fr)
+            return "stack-overflow|%s" % max(f for f in cnt if cnt[f] * 4 >= len(fr)), head
         return "%s|%s" % (kind, "<".join(fr[:3]) or "?"), head
     m = re.search(r"(\S+?):\d+:\d+: runtime error: ([^\n]*)", err)
     if m:
@@ -94,6 +156,8 @@ def signature(err, sig, phase):
         return "ubsan %s|%s" % (kind, "<".join(fr[:3]) or os.path.basename(m.group(1))), m.group(2)
     if "AddressSanitizer:DEADLYSIGNAL" in err or "AddressSanitizer: " in err and "ERROR" in err:
         return "asan-unparsed|%s" % phase, err[-300:]
+    if sig in (signal.SIGKILL, signal.SIGXCPU):
+        return None             # killed from outside (memory pressure, CPU rlimit): a resource limit, not an observation
     if sig:
         try:
             name = signal.Signals(sig).name
@@ -155,6 +219,8 @@ def run_pack(probe, pack_path, n, wall=1800):
             raise core.Inconclusive("probe restart loop does not make progress")
         r = sh([probe, "--fuel", str(FUEL), "--cpu-load", str(CPU_LOAD), "--cpu-run", str(CPU_RUN)],
                stdin=("P %s %d\n" % (pack_path, first)).encode(), cpu=3600, wall=wall, san=True, env=SAN_OPTS)
+        if r.rc == 127 and b"exec failed" in r.err:
+            raise core.Inconclusive("the probe binary cannot be executed: %s" % r.errtext()[:200])
         if r.timeout:
             r2 = sh([probe, "--fuel", str(FUEL), "--cpu-load", str(CPU_LOAD), "--cpu-run", str(CPU_RUN)],
                     stdin=("P %s %d\n" % (pack_path, first)).encode(), cpu=3600, wall=wall, san=True, env=SAN_OPTS)
@@ -196,15 +262,18 @@ def run_pack(probe, pack_path, n, wall=1800):
         if ended:
             break
         if pending is not None:
-            deaths.append((pending, phase, r.sig, r.errtext()))
+            deaths.append((pending, phase, r.sig, clip(symbolize(r.errtext()))))
             records[pending] = {"dead": len(deaths) - 1}
             first = pending + 1
             continue
         if r.rc == 99:
             continue            # T record handled above
-        # died between cases / before the first case
-        deaths.append((-1, "between-cases", r.sig, r.errtext() or ("rc=%s" % r.rc)))
-        break
+        # died between cases / before the first case: attribute to nothing, go on behind the last finished case
+        deaths.append((-1, "between-cases", r.sig, clip(symbolize(r.errtext())) or ("rc=%s" % r.rc)))
+        done = [k for k in records if k >= first]
+        if not done:
+            break
+        first = max(done) + 1
     return records, deaths, ops
 
 
@@ -252,9 +321,9 @@ def _batch(job):
                 res["resource"] += 1
             else:
                 oc = "CRASH " + s[0]
-                res["viol"].append((s[0], kind, phase, s[1], blob, err[-6000:]))
+                res["viol"].append((s[0], kind, phase, s[1], blob, err))
         elif "T" in rec:
-            if rec["T"] == "run":
+            if rec["T"] in ("run", "cleanup"):
                 oc = "vm-cpu-budget"
                 res["vm_budget"] += 1
             else:
@@ -288,13 +357,15 @@ def _batch(job):
         res["kinds"][fam] += 1
         res["pairs"][(fam, oc)] += 1
         if len(res["samples"]) < 2 and r.random() < 0.01:
-            res["samples"].append({"kind": kind, "bytes": len(blob), "outcome": oc, "sha": hashlib.sha1(blob).hexdigest()[:12]})
+            res["samples"].append({"kind": kind, "bytes": len(blob), "outcome": oc, "sha1": hashlib.sha1(blob).hexdigest()[:12],
+                                   "hex": blob[:160].hex() + ("..." if len(blob) > 160 else "")})
         if oc != "imports-not-run" and r.random() < cli_rate:
             res["cli"].append((kind, oc, blob))
     for d in deaths:
         if d[0] == -1:
-            s = signature(d[3], d[2], d[1]) or ("abnormal-exit|between-cases", "")
-            res["viol"].append((s[0] + "|between-cases", "?", d[1], s[1], b"", d[3][-6000:]))
+            s = signature(d[3], d[2], d[1])
+            if s is not None:       # (None: killed from outside / memory limit; the unprocessed cases then count as missing)
+                res["viol"].append((s[0] + "|between-cases", "?", d[1], s[1], b"", d[3]))
     res["hashes"] = b"".join(sorted(res["hashes"]))
     return res
 
@@ -313,6 +384,39 @@ def _cli(job):
     return job, r
 
 
+def replay(ctx, path):
+    """./check C13 --replay <dir>: run <dir>/case.nvm (or a file) through the probe and nano_vm again."""
+    asan = build.get("asan")
+    case = os.path.join(path, "case.nvm") if os.path.isdir(path) else path
+    blob = open(case, "rb").read()
+    bad = 0
+    with Scratch("c13r") as sc:
+        pk = os.path.join(sc.path, "r.pack")
+        write_pack(pk, [blob])
+        rec, deaths = probe_single(asan.probe("vm_probe"), pk)
+        if rec and "dead" in rec:
+            d = deaths[rec["dead"]]
+            s = signature(d[3], d[2], d[1])
+            print("probe: died in phase %s: %s" % (d[1], s[0] if s else "resource limit"))
+            print(d[3][:4000])
+            bad += 1 if s else 0
+        else:
+            print("probe: %s" % rec)
+            if rec and (rec.get("onwalk") == "1" or rec.get("T") in ("load", "verify") or rec.get("inv", "ok") != "ok"):
+                bad += 1
+        f = sc.file("case.nvm", blob)
+        (_, r) = _cli(("replay", "", f, asan.nano_vm))
+        err = clip(symbolize(r.errtext()))
+        if r.sig or r.rc == 97 or "ERROR: AddressSanitizer" in err or "runtime error:" in err:
+            s = signature(err, r.sig, "nano_vm")
+            print("nano_vm: %s\n%s" % (s[0] if s else "resource limit", err[:4000]))
+            bad += 1 if s else 0
+        else:
+            print("nano_vm: exit %s, stderr: %s" % (r.rc, err[:300].strip()))
+    print("replay: %s" % ("violation reproduced" if bad else "no violation observed"))
+    return 1 if bad else 0
+
+
 def run(ctx):
     asan = build.get("asan")
     probe = asan.probe("vm_probe")
@@ -322,6 +426,11 @@ def run(ctx):
     ctx.require(d.rc == 0 and len(isa.ops) >= 40, "opcode table dump failed (%d opcodes)" % len(isa.ops))
 
     with Scratch("c13") as sc:
+        # private copies: the shared build cache is pruned while other checks build new flavors
+        import shutil
+        bdir = sc.sub("bin")
+        probe = shutil.copy2(probe, os.path.join(bdir, "vm_probe"))
+        nano_vm = shutil.copy2(asan.nano_vm, os.path.join(bdir, "nano_vm"))
         # ---- seeds: compiler-produced modules ------------------------------------------------
         srcs = corpus.repo_sources()
         rs = ctx.rng("sources")
@@ -355,7 +464,7 @@ def run(ctx):
                 _, phase, sig, err = cdeaths[rec["dead"]]
                 s = signature(err, sig, phase)
                 if s:
-                    ctx.violation(s[0], "probe died on an UNMUTATED compiler-produced module (%s, %s)\n%s" % (fz.seeds[k // 2].name, s[1], err[-3000:]),
+                    ctx.violation(s[0], "probe died on an UNMUTATED compiler-produced module (%s, %s)\n%s" % (fz.seeds[k // 2].name, s[1], err[:3000]),
                                   {"case.nvm": blob, "report.txt": err, "cmd.txt": "echo case.nvm | vm_probe    # asan flavor\n"})
                 continue
             ctx.require(rec.get("load") == "1" and rec.get("verify") == "1",
@@ -369,32 +478,38 @@ def run(ctx):
 
         # ---- witnesses of recorded findings (regression corpus) ------------------------------
         kf = core.load_findings()
-        wit_seen = []
+        listed = {}
         for status in ("open", "fixed"):
             for e in kf.get(status, []):
-                if e.get("property") != "C13" or not e.get("witness"):
-                    continue
-                wp = os.path.join(core.VERIF, e["witness"])
-                if not os.path.exists(wp):
-                    ctx.note("witness %s is missing" % e["witness"])
-                    continue
-                blob = open(wp, "rb").read()
-                wpk = os.path.join(sc.path, "w.pack")
-                write_pack(wpk, [blob])
-                rec, deaths = probe_single(probe, wpk)
-                got = None
-                if rec and "dead" in rec:
-                    s = signature(deaths[rec["dead"]][3], deaths[rec["dead"]][2], deaths[rec["dead"]][1])
-                    got = s[0] if s else "resource-limit"
-                    if s:
-                        ctx.violation(s[0], "witness %s: %s\n%s" % (e["witness"], s[1], deaths[rec["dead"]][3][-3000:]),
-                                      {"case.nvm": blob, "report.txt": deaths[rec["dead"]][3]})
-                elif rec and rec.get("onwalk") == "1":
-                    got = "onwalk-decode"
-                    ctx.violation("onwalk-decode", "witness %s: %s" % (e["witness"], rec), {"case.nvm": blob})
-                wit_seen.append({"witness": e["witness"], "status": status, "listed_key": e["key"], "observed": got or (outcome_of(rec) if rec else "no record")})
-                if status == "open" and got != e["key"]:
-                    ctx.note("open finding %s: its witness no longer shows %s (observed %s) - entry can become 'fixed'" % (e["witness"], e["key"], got))
+                if isinstance(e, dict) and e.get("property") == "C13" and e.get("witness"):
+                    listed[os.path.basename(e["witness"])] = (status, e["key"])
+        wit_seen = []
+        wdir = os.path.join(core.VERIF, "findings", "C13")
+        for wn in sorted(os.listdir(wdir)) if os.path.isdir(wdir) else []:
+            if not wn.endswith(".nvm"):
+                continue
+            blob = open(os.path.join(wdir, wn), "rb").read()
+            wpk = os.path.join(sc.path, "w.pack")
+            write_pack(wpk, [blob])
+            rec, deaths = probe_single(probe, wpk)
+            got = None
+            if rec and "dead" in rec:
+                dd = deaths[rec["dead"]]
+                s = signature(dd[3], dd[2], dd[1])
+                got = s[0] if s else "resource-limit"
+                if s:
+                    ctx.violation(s[0], "witness findings/C13/%s: %s\n%s" % (wn, s[1], dd[3][:3000]), {"case.nvm": blob, "report.txt": dd[3]})
+            elif rec and rec.get("T") in ("load", "verify"):
+                got = "loader-timeout"
+                ctx.violation("loader-timeout", "witness findings/C13/%s: loader/verifier CPU budget" % wn, {"case.nvm": blob})
+            elif rec and rec.get("onwalk") == "1":
+                got = "onwalk-decode"
+                ctx.violation("onwalk-decode", "witness findings/C13/%s: %s" % (wn, rec), {"case.nvm": blob})
+            status, key = listed.get(wn, ("unlisted", None))
+            wit_seen.append({"witness": wn, "status": status, "listed_key": key,
+                             "observed": got or (outcome_of(rec) if rec and "T" not in rec else str(rec))})
+            if status == "open" and got != key:
+                ctx.note("open finding %s: its witness no longer shows %s (observed %s) - the entry can become 'fixed'" % (wn, key, wit_seen[-1]["observed"]))
 
         # ---- the sweep ---------------------------------------------------------------------
         total = ctx.n(30000, 1500000)
@@ -437,12 +552,13 @@ def run(ctx):
                 for key, kind, phase, what, blob, err in res["viol"]:
                     e = sigs.setdefault(key, {"count": 0, "kinds": collections.Counter(), "first": None})
                     e["count"] += 1
-                    e["kinds"][kind.split("+")[0]] += 1
+                    for fam in kind.split("+"):
+                        e["kinds"][fam] += 1
                     if e["first"] is None or (blob and len(blob) < len(e["first"][3])):
                         e["first"] = (kind, phase, what, blob, err)
                 for kind, oc, blob in res["cli"]:
                     if len(cli_jobs) < cli_want * 2:
-                        cli_jobs.append((kind, oc, sc.file("cli/c%06d.nvm" % len(cli_jobs), blob), asan.nano_vm))
+                        cli_jobs.append((kind, oc, sc.file("cli/c%06d.nvm" % len(cli_jobs), blob), nano_vm))
 
         # loader/verifier CPU budget: believe it only when it repeats in a process of its own
         loader_timeouts = 0
@@ -460,7 +576,7 @@ def run(ctx):
             kind, phase, what, blob, err = e["first"]
             for _ in range(e["count"]):
                 ctx.violation(key, "%s (phase %s, mutation %s, %d-byte case; seen %d times, mutation families %s)\n%s"
-                              % (what, phase, kind, len(blob), e["count"], dict(e["kinds"].most_common(6)), err[-3500:]),
+                              % (what, phase, kind, len(blob), e["count"], dict(e["kinds"].most_common(6)), err[:3500]),
                               {"case.nvm": blob, "report.txt": err,
                                "cmd.txt": "echo case.nvm | vm_probe --fuel %d      # asan flavor: build.get('asan').probe('vm_probe')\n" % FUEL})
 
@@ -470,7 +586,7 @@ def run(ctx):
         n_cli = 0
         for (kind, oc, path, _), r in pmap(_cli, cli_jobs):
             n_cli += 1
-            err = r.errtext()
+            err = clip(symbolize(r.errtext()))
             died = bool(r.sig) or r.rc == 97 or "ERROR: AddressSanitizer" in err or "runtime error:" in err
             if r.timeout:
                 cli_out["watchdog (inconclusive)"] += 1
@@ -484,7 +600,7 @@ def run(ctx):
                     cli_out["cpu-limit (not a verdict)"] += 1
                     continue
                 cli_out["CRASH " + s[0]] += 1
-                ctx.violation(s[0], "nano_vm (asan) on a %s case (probe outcome: %s): %s\n%s" % (kind, oc, s[1], err[-3500:]),
+                ctx.violation(s[0], "nano_vm (asan) on a %s case (probe outcome: %s): %s\n%s" % (kind, oc, s[1], err[:3500]),
                               {"case.nvm": open(path, "rb").read(), "report.txt": err, "cmd.txt": "NLVERIF_FUEL=%d nano_vm case.nvm   # asan flavor\n" % FUEL})
                 continue
             if r.rc not in (0, 1):
